@@ -222,3 +222,111 @@ theorem VecSt.abs_eq_ids (v : VecSt) (hwf : v.WF) (h : v.Init) : v.abs = v.ids.m
   · simp [hk]
 
 end AnyVec
+
+namespace AnyVec
+
+theorem heapResize_cells (v v' : VecSt) (n : Nat) (es : List Event) (h : v.heapResize n = .ok (v', es))
+    (hn : v.cells.length ≤ n) : v'.cells = v.cells := by
+  unfold VecSt.heapResize at h
+  split at h
+  · cases h; rfl
+  · split at h
+    · cases h; simp [List.take_of_length_le hn]
+    · split at h
+      · cases h
+        rename_i h0
+        subst h0
+        simp at hn ⊢
+        exact hn
+      · split at h
+        · split at h
+          · cases h
+          · cases h; simp [List.take_of_length_le hn]
+        · cases h
+        · cases h
+
+theorem relocResize_cells (v v' : VecSt) (n : Nat) (es : List Event) (h : v.relocResize n = .ok (v', es))
+    (hn : v.cells.length ≤ n) : v'.cells = v.cells := by
+  unfold VecSt.relocResize at h
+  split at h
+  · split at h
+    · cases h
+    · cases h; simp [List.take_of_length_le hn]
+  · cases h
+  · cases h
+
+/-- growing the storage keeps *every* materialised slot (also those past `len`, which hold the
+not yet yielded range and the tail while a drain/splice is alive) -/
+theorem memExpand_cells (v v' : VecSt) (a : Nat) (es : List Event) (hwf : v.cells.length ≤ v.cap)
+    (h : v.memExpand a = .ok (v', es)) : v'.cells = v.cells := by
+  unfold VecSt.memExpand at h
+  split at h
+  · cases hca : checkedAdd v.cap a with
+    | ok r =>
+      obtain ⟨hr, _⟩ := checkedAdd_ok _ _ _ hca
+      rw [hca] at h
+      exact heapResize_cells v v' _ es h (by omega)
+    | panic m => rw [hca] at h; cases h
+    | ub m => rw [hca] at h; cases h
+  · cases hca : checkedAdd v.cap a with
+    | ok r =>
+      obtain ⟨hr, _⟩ := checkedAdd_ok _ _ _ hca
+      rw [hca] at h
+      simp only at h
+      split at h
+      · rename_i v1 ev heq
+        cases h
+        exact relocResize_cells v v' _ ev heq (by omega)
+      · cases h
+      · cases h
+    | panic m => rw [hca] at h; cases h
+    | ub m => rw [hca] at h; cases h
+  · cases h
+
+theorem reserve_cells (v v' : VecSt) (n : Nat) (es : List Event) (hwf : v.cells.length ≤ v.cap)
+    (h : v.reserve n = .ok (v', es)) : v'.cells = v.cells := by
+  unfold VecSt.reserve at h
+  cases hca : checkedAdd v.len n with
+  | ok r =>
+    rw [hca] at h
+    simp only at h
+    split at h
+    · exact memExpand_cells v v' _ es hwf h
+    · cases h; rfl
+  | panic m => rw [hca] at h; cases h
+  | ub m => rw [hca] at h; cases h
+
+theorem reserve_full (v v' : VecSt) (n : Nat) (es : List Event) (hwf : v.WF) (h : v.reserve n = .ok (v', es)) :
+    v.len + n ≤ v'.cap ∧ v'.len = v.len ∧ v'.cells = v.cells ∧ v'.WF ∧ v'.ty = v.ty ∧
+      v'.hasDrop = v.hasDrop ∧ v'.live = v.live ∧ v'.size = v.size := by
+  have hc := reserve_cells v v' n es hwf.cells_le h
+  unfold VecSt.reserve at h
+  cases hca : checkedAdd v.len n with
+  | ok r0 =>
+    obtain ⟨hr0, _⟩ := checkedAdd_ok _ _ _ hca
+    rw [hca] at h
+    simp only at h
+    split at h
+    · obtain ⟨hcap, hl, _, hw, hty, hsz, _, hdr, _, _, hlv⟩ := memExpand_spec v v' _ es hwf h
+      exact ⟨by omega, hl, hc, hw, hty, hdr, hlv, hsz⟩
+    · cases h
+      exact ⟨by omega, rfl, rfl, hwf, rfl, rfl, rfl, rfl⟩
+  | panic m => rw [hca] at h; cases h
+  | ub m => rw [hca] at h; cases h
+
+/-- a prefix of the storage, slot by slot -/
+theorem take_ext (m : Mem) (n : Nat) (l : List Cell) (hl : l.length = n) (hm : n ≤ m.length)
+    (h : ∀ k, k < n → m.get k = (l[k]?).getD Cell.uninit) : m.take n = l := by
+  apply List.ext_getElem?
+  intro k
+  simp only [List.getElem?_take]
+  by_cases hk : k < n
+  · have := h k hk
+    have hk2 : k < m.length := by omega
+    have hk3 : k < l.length := by omega
+    simp only [Mem.get_eq, List.getElem?_eq_getElem hk2, List.getElem?_eq_getElem hk3, Option.getD_some] at this
+    simp [hk, List.getElem?_eq_getElem hk2, List.getElem?_eq_getElem hk3, this]
+  · have : l[k]? = none := by simp; omega
+    simp [hk, this]
+
+end AnyVec
